@@ -477,7 +477,7 @@ def main(argv):
                 i += 1
         return cmd_check(prop, tier, jobs, only)
     if len(argv) >= 2 and argv[0] == 'baseline':
-        cmd_baseline(argv[1:], 'quick')
+        cmd_baseline([a for a in argv[1:] if a in PROP_MODULES], 'quick')
         return 0
     print(__doc__)
     return 3
